@@ -30,6 +30,8 @@ static std::vector<Decl> declarations()
     mk({ Item::multi("multi", "m", false) }, 2, true);
     mk({ Item::tog("tog", "t", true, 3).with_env("VP_T"), Item::opt("opt", "o").with_env("VP_O") }, 0, false);
     mk({ Item::opt("opt", "o"), Item::opt("out", "p", false) }, 1, false);
+    // short names whose order is the reverse of the long names' order (tog < ugg < vee by name, z > t > a by letter)
+    mk({ Item::tog("tog", "z"), Item::tog("ugg", "t", true), Item::tog("vee", "a"), Item::opt("opt", "u") }, 1, false);
     return ds;
 }
 
@@ -43,7 +45,9 @@ static const std::vector<std::string>& alphabet()
         "-t-",      "-t=1",      "-tu=1",      "--tog",     "--tog=1",   "--ugg",     "-z",       "--zz",
         "--zz=1",   "-m",        "--multi=x",  "- ",        "-\xff",     "--\n",      "-p",       "--out=1",
         "--optx",   "--op",      "--opt-x=1",
-        "-t\xff",   "-\xc3\xa4", "--t\xc3\xa4"
+        "-t\xff",   "-\xc3\xa4", "--t\xc3\xa4",
+        // particular texts: a token that looks like a placeholder of the library's own formatter (error messages echo tokens)
+        "{}",       "a{}b",      "--{}",       "--opt={}",  "-{}",       "%s%n"
     };
     return a;
 }
@@ -153,6 +157,15 @@ int main(int argc, char** argv)
                 "--" + std::string(200000, 'n'),
                 "-" + std::string(100000, 'z') + "=" + std::string(100000, 'v'),
             };
+            for (size_t n : { 60u, 64u, 65u, 70u, 90u, 300u })
+                for (auto val : { "", "1", "on", "0123456789abcdef", "0123456789abcdefg" })
+                {
+                    stress.push_back("--" + std::string(n, 'x') + "=" + val);
+                    stress.push_back("-" + std::string(n, 'v') + "=" + val);
+                    stress.push_back(std::string(n, 'p') + "/key=" + val);
+                    stress.push_back("---" + std::string(n, 'y') + "=" + val);
+                    stress.push_back("--opt" + std::string(n, 'z') + "=" + val);
+                }
             std::string distinct = "-";
             for (int c = 1; c < 256; c++)
                 if (c != '=' && c != '-')
@@ -165,6 +178,7 @@ int main(int argc, char** argv)
                     one(D, { t }, env);
                     one(D, { t, "x" }, env);
                     one(D, { "--", t }, env);
+                    one(D, { "x", "y", "z", t }, env); // behind more positionals than most declarations accept
                 }
             // the same stress tokens through the other entry point (user_input's checking constructor + parse(vector))
             for (auto& t : stress)
